@@ -61,7 +61,9 @@ PARTIAL = (
     "get_size / set_raw / get_raw / is_locked(wait=...), real sockets and timeouts. Lock wait loops: one waiter and one parked holder (the holder "
     "makes no calls while the waiter waits); outages begin at a client-call position of the waiter, not inside asyncio.sleep(check_interval) with "
     "other traffic; the transaction's wait loop has no liveness ping - on a down server with suppression on it waits its whole timeout and raises "
-    "LockedError (bounded; accepted as that loop's documented error)."
+    "LockedError (bounded; accepted as that loop's documented error). Round 4: glob specials ([ ] ? \\) in scan patterns are not exhibited "
+    "(the server model's glob knows '*' only; D60 observed on a foreign fake); set_add shortening a set's ttl on Redis is reported as finding D68 "
+    "(the C19 reference models Redis' behaviour as a declared difference); slice_incr with repeated `end` instants is outside the alphabet."
 )
 
 KNOWN_SIGS = {
@@ -69,6 +71,11 @@ KNOWN_SIGS = {
     "D28": "D28:negative-int-not-read-back",
     "D29": "D29:pipeline-unsuppressed-raw-redis-error",
     "D30": "D30:iterator-truncated-replay-on-fault",
+    "D61": "D61:bloom-unknown-answer-reads-as-member",
+    "D62": "D62:circuit-breaker-typeerror-when-count-unknown",
+    "D64": "D64:safe-pipeline-lets-oserror-through",
+    "D65": "D65:lock-body-error-becomes-runtimeerror",
+    "D67": "D67:redis-set-lock-without-lease-typeerror",
 }
 
 
@@ -81,6 +88,10 @@ def classify(step, cfg) -> str | None:
         return KNOWN_SIGS["D27"]
     if op[0] in ("setmany", "setadd") and not cfg.get("suppress", True) and impl == "RAISEOTHER" and "redis.exceptions" in step["detail"]:
         return KNOWN_SIGS["D29"]
+    if op[0] in ("setmany", "setadd") and cfg.get("suppress", True) and impl == "RAISEOTHER" and cfg.get("fault", "conn") != "conn":
+        return KNOWN_SIGS["D64"]
+    if op[0] == "setlock" and op[3] is None and impl == "RAISEOTHER" and "TypeError" in step["detail"]:
+        return KNOWN_SIGS["D67"]
     if op[0] in ("get", "getmany") and "=" in impl and "=" in ref:
         a, b = impl.split("=", 1)[1].split(","), ref.split("=", 1)[1].split(",")
         if len(a) == len(b) and all(x == y or (x == "-" and y.startswith("i:-")) for x, y in zip(a, b)):
@@ -377,10 +388,20 @@ def check_shas(chk: Check, ctx: Ctx) -> bool:
 # ------------------------------------------------------------------------------------------------ decorators on a down backend
 
 DECOS = ["cache", "early", "soft", "hit", "failover", "dynamic", "locked", "rate_limit", "slice_rate_limit", "circuit_breaker",
-         "bloom", "dual_bloom", "iterator", "stack"]
+         "bloom", "dual_bloom", "iterator", "stack", "bloom_nocheck",
+         # the same decorators over a function that RAISES its own exception: that exception is "its own result"
+         "cache!fail", "early!fail", "soft!fail", "hit!fail", "failover!fail", "locked!fail", "rate_limit!fail", "circuit_breaker!fail"]
+BOOLEAN_DECOS = ("bloom", "dual_bloom", "bloom_nocheck")
+
+
+class OwnError(Exception):
+    """what a decorated function of the harness raises itself"""
 
 
 def decorate(cache, name, body, gen_body):
+    name = name.split("!")[0]
+    if name == "bloom_nocheck":
+        return cache.bloom(capacity=10, false_positives=10, check_false_positive=False)(body)
     if name == "cache":
         return cache(ttl=2)(body)
     if name == "early":
@@ -439,11 +460,14 @@ def run_decorated(drv, name: str, suppress: bool, faults: list, ncalls: int, adv
         cache.setup("redis://verif:6379", suppress=suppress)
         await cache.init()
         made = []
-        boolean = name in ("bloom", "dual_bloom")
+        boolean = name in BOOLEAN_DECOS
+        failing = name.endswith("!fail")
 
         async def body(x):
             v = (len(made) % 2 == 0) if boolean else f"val{len(made)}"
             made.append(v)
+            if failing:
+                raise OwnError(v)
             return v
 
         async def gen_body(x):
@@ -465,6 +489,8 @@ def run_decorated(drv, name: str, suppress: bool, faults: list, ncalls: int, adv
                 exc = None
             except (RateLimitError, CircuitBreakerOpen, LockedError) as e:
                 r, exc = None, "own:" + type(e).__name__
+            except OwnError as e:
+                r, exc = str(e), "ownerr"
             except CacheBackendInteractionError:
                 r, exc = None, "CacheBackendInteractionError"
             except rs.LivelockGuard as e:
@@ -496,8 +522,20 @@ def judge_decorated(name, suppress, recs) -> tuple[str, str | None] | None:
         alldown = r["calls"] > 0 and r["failed"] == r["calls"]
         allup = r["failed"] == 0
         if r["exc"] and r["exc"].startswith("other:"):
-            d27 = name in ("bloom", "dual_bloom", "stack") and "TypeError: 'NoneType' object is not iterable" in r["exc"] and r["failed"]
-            return f"invocation {i} of the {name}-decorated function raised {r['exc']}", (KNOWN_SIGS["D27"] if d27 else None)
+            d27 = name in BOOLEAN_DECOS + ("stack",) and "TypeError: 'NoneType' object is not iterable" in r["exc"] and r["failed"]
+            d62 = name == "circuit_breaker!fail" and "TypeError" in r["exc"] and r["failed"]
+            return (f"invocation {i} of the {name}-decorated function raised {r['exc']}" + (" instead of the function's own exception" if d62 else ""),
+                    KNOWN_SIGS["D27"] if d27 else KNOWN_SIGS["D62"] if d62 else None)
+        if r["exc"] == "ownerr":
+            # the function's own exception came out: that is its own result (the body ran for it)
+            if r["result"] not in r["made"]:
+                return f"invocation {i} of the {name}-decorated function raised an exception the body never raised", None
+            continue
+        if name.endswith("!fail") and r["exc"] is None:
+            return f"invocation {i} of the {name}-decorated function returned {r['result']!r} although the function raises", None
+        if name == "bloom_nocheck" and suppress and alldown and r["exc"] is None and r["body_runs"] == 0 and r["result"] is True:
+            return (f"invocation {i} of the bloom-decorated function (check_false_positive=False) answered True with the server down "
+                    f"(nothing is known about the key: the empty answer of get_bits was read as 'every bit is set'; the function was not called)"), KNOWN_SIGS["D61"]
         if suppress:
             if r["exc"] == "CacheBackendInteractionError":
                 return f"invocation {i} of the {name}-decorated function raised CacheBackendInteractionError with suppression on", None
@@ -510,7 +548,7 @@ def judge_decorated(name, suppress, recs) -> tuple[str, str | None] | None:
         if r["exc"] is None and isinstance(r["result"], tuple) and r["result"][:1] == ("?items",):
             return (f"invocation {i} of the iterator-decorated function yielded {r['result'][1]!r}: not a run of the function "
                     f"({r['failed']} of {r['calls']} backend calls failed)"), (KNOWN_SIGS["D30"] if any(q["failed"] for q in recs[:i + 1]) else None)
-        own = r["result"] in r["made"] or (name in ("bloom", "dual_bloom") and r["result"] in (True, False) and not alldown)
+        own = r["result"] in r["made"] or (name in BOOLEAN_DECOS and r["result"] in (True, False) and not alldown)
         if r["exc"] is None and not own:
             return f"invocation {i} of the {name}-decorated function returned {r['result']!r}, never produced by the body", None
     return None
@@ -519,7 +557,7 @@ def judge_decorated(name, suppress, recs) -> tuple[str, str | None] | None:
 def decorator_stage(chk: Check, ctx: Ctx) -> tuple[int, int]:
     n = 0
     nontrivial = 0
-    plans = [[[0, BIG]]] + [[[a, BIG]] for a in (1, 2, 3, 5, 8)] + [[[a, a + 2]] for a in (0, 1, 3)]
+    plans = [[[0, BIG]]] + [[[a, BIG]] for a in (1, 2, 3, 4, 5, 8)] + [[[a, a + 2]] for a in (0, 1, 3)]
     if chk.thorough:
         plans += [[[a, BIG]] for a in range(4, 30)] + [[[a, a + w]] for a in range(0, 12) for w in (1, 3)]
     for name in DECOS:
@@ -552,6 +590,15 @@ def decorator_stage(chk: Check, ctx: Ctx) -> tuple[int, int]:
 def corpus_lock_cases():
     for f in sorted((ROOT / "corpus" / PROP).glob("*.json")):
         c = json.loads(f.read_text())
+        if c.get("kind") == "lock_body_error":
+            rec = rl.run_body_error(ctx.drv, c["case"])
+            print(rec)
+            p = rl.judge_body_error(c["case"], rec)
+            if p:
+                print(f"VIOLATION property={PROP} replay={path}\n  ({p['what']})")
+                return 1
+            print("replay: no disagreement")
+            return 0
         if c.get("kind") == "lockwait":
             yield f.name, c["case"]
 
@@ -595,13 +642,89 @@ def lock_stage(chk: Check, ctx: Ctx) -> dict:
         seen_sigs.add(sig)
         chk.violation(p["what"], lockwait_replay(case, rec, p, origin), signature=None)
         ctx.found += 1
+    # the protected block raises: its exception comes out unchanged, however the caller got into the block
+    stats["body_error_runs"] = 0
+    for case in rl.body_error_cases():
+        rec = rl.run_body_error(ctx.drv, case)
+        stats["runs"] += 1
+        stats["body_error_runs"] += 1
+        p = rl.judge_body_error(case, rec)
+        if p is None or (p["sig"] or p["what"]) in seen_sigs:
+            continue
+        seen_sigs.add(p["sig"] or p["what"])
+        known = p["sig"] is not None and any(f.get("status") == "known" and f.get("signature") == p["sig"] for f in chk.known)
+        chk.violation(p["what"], {"kind": "lock_body_error", "case": case, "record": rec, "replay_cmd": "./check C19 --replay <this file>"},
+                      signature=p["sig"])
+        if not known:
+            ctx.found += 1
     return stats
+
+
+# ------------------------------------------------------------------------------------------------ Redis vs the in-memory reference backend
+
+async def _w_set_add_ttl(cache):
+    await cache.set_add("S:w", "a", expire=100)
+    e1 = await cache.get_expire("S:w")
+    await cache.set_add("S:w", "b", expire=1)
+    return [e1, await cache.get_expire("S:w")]
+
+
+CROSS_WITNESSES = [
+    ("D68:redis-set-add-shortens-ttl", _w_set_add_ttl,
+     "set_add('S:w','a',expire=100); set_add('S:w','b',expire=1); get_expire('S:w')",
+     "a later set_add with a shorter ttl SHORTENS the life of the whole set (SADD + unconditional PEXPIRE); the in-memory backend - C01's "
+     "reference TTL map - never shortens it"),
+]
+
+
+def cross_backend_stage(chk: Check, ctx: Ctx) -> int:
+    """fixed scripts on the Redis backend (stub, server up) and on mem://: where the two backends are KNOWN to differ"""
+
+    def run_on(fn, redis_backend: bool):
+        async def go():
+            from cashews import Cache
+
+            cache = Cache()
+            if redis_backend:
+                if ctx.drv.ask("reset 1") != "ok":
+                    raise HarnessError("driver refused reset")
+                server = rs.LeanServer(ctx.drv)
+                rs.unregister()
+                rs.register(server, "redis://verif:6379")
+                cache.setup("redis://verif:6379", suppress=True)
+            else:
+                cache.setup("mem://")
+            await cache.init()
+            try:
+                return await fn(cache)
+            finally:
+                try:
+                    await cache.close()
+                except Exception:  # noqa: BLE001
+                    pass
+        try:
+            return vtime.run(go)
+        finally:
+            rs.unregister()
+
+    n = 0
+    for sig, fn, script, why in CROSS_WITNESSES:
+        on_redis, on_mem = run_on(fn, True), run_on(fn, False)
+        n += 2
+        if on_redis != on_mem:
+            # (not counted in ctx.found: a recorded difference between the backends must not silence the correspondence report)
+            chk.violation(f"Redis backend differs from the reference (in-memory) backend: {script} -> redis {on_redis}, memory {on_mem}: {why}",
+                          {"kind": "cross_backend", "signature": sig, "script": script, "redis": on_redis, "memory": on_mem}, signature=sig)
+    return n
 
 
 # ------------------------------------------------------------------------------------------------ entry points
 
 CFGS = [{"suppress": True, "facade": False}, {"suppress": True, "facade": True}, {"suppress": False, "facade": False},
-        {"suppress": True, "facade": False}, {"suppress": False, "facade": True}]
+        {"suppress": True, "facade": False, "fault": "os"}, {"suppress": False, "facade": True},
+        {"suppress": True, "facade": True, "fault": "timeout"}, {"suppress": False, "facade": False, "fault": "os"}]
+# ("fault": how an unreachable server shows at the client - redis.ConnectionError (default), OSError, asyncio.TimeoutError;
+#  client.py promises the same treatment for all of them)
 
 
 def run(chk: Check) -> int:
@@ -643,6 +766,7 @@ def run(chk: Check) -> int:
                     break
         ndeco, ndeco_nt = decorator_stage(chk, ctx)
         lock = lock_stage(chk, ctx)
+        ncross = cross_backend_stage(chk, ctx)
         if ctx.pending_corr is not None and ctx.found == 0:
             ctx.report_correspondence()
         elif ctx.pending_lock_corr is not None and ctx.found == 0:
@@ -656,7 +780,8 @@ def run(chk: Check) -> int:
         if proof is not None:
             chk.proof_broken(proof, ctx.found > 0)
         chk.coverage.update({
-            "evaluations": ctx.evaluations + ndeco + lock["runs"],
+            "evaluations": ctx.evaluations + ndeco + lock["runs"] + ncross,
+            "cross_backend_witness_runs": ncross,
             "distinct_nontrivial": len(ctx.distinct) + ndeco_nt + lock["nontrivial"],
             "rule": "histories of 1..30 commands (27 command kinds over string/lock/set/sorted-set/bit-array keys, ms TTLs as multiples of 125 ms, "
                     "virtual-time advances) generated from VERIF_SEED, round-robin over suppress on/off x raw backend/Cache facade; every history is run "
@@ -675,6 +800,7 @@ def run(chk: Check) -> int:
             "histories_with_exhaustive_fault_positions": exhaustive_cases,
             "decorator_runs": ndeco,
             "lock_wait_runs": lock["runs"],
+            "lock_body_error_runs": lock["body_error_runs"],
             "lock_wait_grid": lock["exhaustive_grid"],
             "lock_wait_outcomes": lock["outcomes"],
             "lock_wait_model_outcomes": lock["model_outcomes"],
